@@ -94,6 +94,15 @@ def _guard_form(body):
     return out
 
 
+def _canon_ifexp(n: ast.IfExp) -> ast.IfExp:
+    n.test = _test(n.test)
+    if isinstance(n.test, ast.UnaryOp) and isinstance(n.test.op, ast.Not):
+        n.test, n.body, n.orelse = n.test.operand, n.orelse, n.body
+    elif _negative(n.test):
+        n.test, n.body, n.orelse = _positive(n.test), n.orelse, n.body
+    return n
+
+
 def _simple_value(e) -> bool:
     return isinstance(e, (ast.Constant, ast.Name)) or (isinstance(e, ast.Attribute) and _simple_value(e.value)) \
         or (isinstance(e, (ast.List, ast.Tuple, ast.Dict, ast.Set)) and not any(True for _ in ast.iter_child_nodes(e) if not isinstance(_, ast.expr_context)))
@@ -115,14 +124,14 @@ def _merge_conditional_assignments(body):
             b = _one_assign(st.orelse) if st.orelse else None
             if a is not None and b is not None and a.targets[0].id == b.targets[0].id:
                 out.append(ast.copy_location(ast.Assign(targets=[ast.Name(id=a.targets[0].id, ctx=ast.Store())],
-                                                        value=ast.copy_location(ast.IfExp(test=st.test, body=a.value, orelse=b.value), st)), st))
+                                                        value=_canon_ifexp(ast.copy_location(ast.IfExp(test=st.test, body=a.value, orelse=b.value), st))), st))
                 continue
             if a is not None and not st.orelse and out:
                 prev = out[-1]
                 if isinstance(prev, ast.Assign) and len(prev.targets) == 1 and isinstance(prev.targets[0], ast.Name) and prev.targets[0].id == a.targets[0].id \
                         and _simple_value(prev.value) and a.targets[0].id not in {n.id for n in ast.walk(st.test) if isinstance(n, ast.Name)}:
                     out[-1] = ast.copy_location(ast.Assign(targets=[ast.Name(id=a.targets[0].id, ctx=ast.Store())],
-                                                           value=ast.copy_location(ast.IfExp(test=st.test, body=a.value, orelse=prev.value), st)), prev)
+                                                           value=_canon_ifexp(ast.copy_location(ast.IfExp(test=st.test, body=a.value, orelse=prev.value), st))), prev)
                     continue
         out.append(st)
     return out
@@ -179,12 +188,7 @@ class Normalise(ast.NodeTransformer):
 
     def visit_IfExp(self, n):
         self.generic_visit(n)
-        n.test = _test(n.test)
-        if isinstance(n.test, ast.UnaryOp) and isinstance(n.test.op, ast.Not):
-            n.test, n.body, n.orelse = n.test.operand, n.orelse, n.body
-        elif _negative(n.test):
-            n.test, n.body, n.orelse = _positive(n.test), n.orelse, n.body
-        return n
+        return _canon_ifexp(n)
 
     def visit_comprehension(self, n):
         self.generic_visit(n)
